@@ -1,8 +1,10 @@
 (* C01 — Live allocations are valid, aligned and pairwise disjoint.
    Only pinned statements, `exact`, and Print Assumptions.
-   PARTIAL (named so): preservation is proved for every operation except grow/shrink
-   (`is_realloc o = false`); grow/shrink are covered by the correspondence check and the
-   implementation-side monitors only. *)
+   PARTIAL (named so): preservation is proved for every operation (allocate, allocate_zeroed,
+   deallocate, grow(_zeroed), shrink — in place, moved, through WithoutDealloc/WithoutShrink —
+   fill, checkpoint, reset_to, reset, reset_to_start, reserve, claim, unclaim, drop) except
+   `OTryErr` (alloc_try_with(_mut) whose closure returns Err; `is_realloc o = false` excludes
+   only that one), which is covered by the correspondence check and the monitors. *)
 From Coq Require Import ZArith List.
 From BS Require Import Word BumpSpec ChunkSpec Arena ArenaInv.
 Import ListNotations.
